@@ -90,6 +90,12 @@ type Val struct {
 	seqElem types.Type // spec-level sequence value (Term is a Seq)
 	seqES   string
 	mapT    *types.Map // spec-level map value (Term is a Map)
+	Alts    []AltVal   // pointer that is one of several differently shaped addresses (conditions exclusive)
+}
+
+type AltVal struct {
+	Cond string
+	V    Val
 }
 
 type Mem struct {
